@@ -885,6 +885,8 @@ class Unit:
             start, end = bf.toks[y].end, bf.toks[c].start
             pad = "\n" * (bf.line_of(start) - 1)
             self.files[rel] = RustFile(os.path.join(self.repo, base), src=pad + bf.src[start:end])
+            self.files[rel].quote_base = base
+            self.files[rel].quote_delta = start - len(pad)       # offset in the real file = offset here + delta
             return self.files[rel]
         if rel not in self.files:
             p = os.path.join(self.repo, rel)
@@ -1203,6 +1205,15 @@ class Unit:
                 raise ExtractError("anchor lost: //@sigsub /%s/ in %s" % (rx.pattern, name))
             rw.count("MANUAL sigsub /%s/ => %s" % (rx.pattern, repl), nsub)
         sig = self.name_return(sig, ret)
+        if opts.get("as") and not opts.get("closure"):
+            # a second contract on the SAME real body under another name (`as=`): used where one clause of a function is a
+            # recorded finding, so that the function's other clauses stay verified and a change that breaks one of them is
+            # still reported against a verified baseline
+            sig, nren = re.subn(r"\bfn\s+%s\b" % re.escape(name), "fn %s" % opts["as"], sig, count=1)
+            if nren != 1:
+                raise ExtractError("as=: cannot rename %s" % name)
+            rw.count("second contract view of %s as %s (same body)" % (name, opts["as"]))
+            name = opts["as"]
         if opts.get("closure"):
             if not sig_override:
                 raise ExtractError("closure= needs a //@sig line in %s" % name)
